@@ -98,6 +98,7 @@ structure DState where
   insts : List (Nat × Verify.V)
   i : Nat
   step : Nat
+  rate : Int := 1000000
   cur : Option View := none       -- session family: the SessionData of the current request
   now : Int := 0
   secure : Bool := false
@@ -114,11 +115,11 @@ def jarOf (st : DState) (b : Nat) : Jar := ofTab (tabOf st b)
 def setJar (st : DState) (b : Nat) (j : Jar) : DState := { st with jars := (b, toTab 300 j) :: st.jars.filter (·.1 != b) }
 
 def ns : Int := 1000000000
-def vFacts : Verify.Facts :=
-  { se := Current.se, r := Current.limiterRate 1000000, b := Current.limiterBurst 1000000 * Limiter.U,
+def vFacts (R : Int) : Verify.Facts :=
+  { se := Current.se, r := Current.limiterRate R, b := Current.limiterBurst R * Limiter.U,
     blTTL := Current.blacklistSec * ns, skew := Current.skewFuture * ns, revokeUntilExp := Current.revokeUntilExp }
-def vInit : Verify.V := ⟨Cache.init Current.cacheCap, Cache.init Current.cacheCap, Limiter.init (Current.limiterBurst 1000000)⟩
-def vOf (st : DState) : Verify.V := ((st.insts.find? (·.1 == st.i)).map (·.2)).getD vInit
+def vInit (R : Int) : Verify.V := ⟨Cache.init Current.cacheCap, Cache.init Current.cacheCap, Limiter.init (Current.limiterBurst R)⟩
+def vOf (st : DState) : Verify.V := ((st.insts.find? (·.1 == st.i)).map (·.2)).getD (vInit st.rate)
 def tokOf (toks : List TokDesc) : Verify.TokOf :=
   { exp := fun id => match toks.find? (·.id == id) with | some t => t.exp * ns | none => 0,
     jti := fun id => match toks.find? (·.id == id) with | some t => t.jti | none => none,
@@ -238,7 +239,8 @@ def execOf (j : Json) (id : Nat) (tokRaw : Str) : Option Str :=
 
 def runLine (st : DState) (j : Json) : DState × Option Json :=
   match jS j "op" with
-  | "cfg" => ({ st with cfg := parseCfg j, jars := [], b := 0, snaps := #[], insts := [], i := 0, step := 0, toks := [] }, none)
+  | "cfg" => ({ st with cfg := parseCfg j, jars := [], b := 0, snaps := #[], insts := [], i := 0, step := 0, toks := [],
+                        rate := if jHas j "rateLimit" then jI j "rateLimit" else 1000000 }, none)
   | "tok" => ({ st with toks := parseTok j :: st.toks.filter (fun t => t.id != jS j "id") }, none)
   | "browser" => ({ st with b := jN j "b" }, none)
   | "inst" => ({ st with i := jN j "i" }, none)
@@ -301,7 +303,7 @@ def runLine (st : DState) (j : Json) : DState × Option Json :=
     let now := jI j "now"
     let T := tokOf st.toks
     let v := vOf st
-    let vt : Str → Bool := fun raw => (Verify.verify vFacts T v (now * ns) (S raw)).2
+    let vt : Str → Bool := fun raw => (Verify.verify (vFacts st.rate) T v (now * ns) (S raw)).2
     let ex := parseExchange j
     let rf := parseRefresh j
     let e : Env :=
@@ -322,7 +324,7 @@ def runLine (st : DState) (j : Json) : DState × Option Json :=
       | [Call.exchange ..] => (match ex with | .ok idRaw _ => some idRaw | _ => none)
       | [Call.refresh _] => (match rf with | .ok idRaw _ => if idRaw.isEmpty then none else some idRaw | _ => none)
       | _ => none
-    let v' := match verified with | some raw => (Verify.verify vFacts T v (now * ns) (S raw)).1 | none => v
+    let v' := match verified with | some raw => (Verify.verify (vFacts st.rate) T v (now * ns) (S raw)).1 | none => v
     let st1 := setJar st st.b jar'
     let st2 := { st1 with insts := (st.i, v') :: st.insts.filter (·.1 != st.i), step := n + 1 }
     let out := Json.mkObj (respJson st r o ++ [("calls", Json.arr ((o.calls.map (fun c => Json.str (showCall st.toks c))).toArray)),
